@@ -4,8 +4,8 @@
     utils::range_excluding_trivia, kind list regenerated from the source into GenFoldKinds.v), FOR ALL TREES. *)
 From Coq Require Import List NArith Bool Sorted String.
 From TG.Gen Require Import GenTokens GenFoldKinds.
-From TG.Model Require Import Chars Tree TreeNav Folding SymbolMap Outline CoreAst OutlineIndex OutlineSpec.
-From TG.Proofs Require Import TreeNavProofs FoldingProofs OutlineProofs OutlineIndexProofs OutlineSourceProofs OutlineVisitProofs.
+From TG.Model Require Import Chars Tree TreeNav Folding SymbolMap Outline CoreAst OutlineIndex OutlineSpec OutlineChildSpec.
+From TG.Proofs Require Import TreeNavProofs FoldingProofs OutlineProofs OutlineIndexProofs OutlineSourceProofs OutlineVisitProofs OutlineChildProofs.
 Import ListNotations.
 Open Scope N_scope.
 
@@ -278,4 +278,44 @@ Example C18_outline_files_example :
   decls_of_file 0 (ops_fdecls (oix_ops ex_ws2)) = [(DClass, s2n "A", 6, 7); (DDefset, s2n "S", 23, 24)] /\
   decls_of_file 1 (ops_fdecls (oix_ops ex_ws2)) = [(DDef, s2n "x", 4, 5); (DClass, s2n "K", 14, 15)] /\
   decls_of_file 2 (ops_fdecls (oix_ops ex_ws2)) = [].
+Proof. vm_compute. repeat split; reflexivity. Qed.
+
+(** ================= Source level, CHILDREN =================
+    [OutlineChildSpec.visitc_ws] extends the visit with everything a record gets, computed from the AST alone with a table of
+    the records declared so far: each template argument `T a` whose type resolves (CTArg, in declaration order), each body
+    item `T f;` whose type resolves (CField), and each `let f = ..;` whose field f is visible in the record -- declared or
+    overridden earlier in the same body, or inherited through the resolved parent classes, depth-first in written order,
+    each ancestor once -- registered with f's declared type (CField); plus the record / defset / multiclass registrations. *)
+
+(** For EVERY workspace on which the slice hits no modelled panic: the complete registration stream of the slice
+    ([ops_cevs]: add_record / add_anonymous_def / add_defset / add_multiclass / add_template_argument / add_record_field with
+    file, name, type string, identifier range, in order) IS that visit.  With C18_outline_entry / _children_order /
+    _children_distinct (each registration is inserted into the record's IndexMap under its name) this is the statement's
+    "one child per template argument and per field declared or overridden in its body". *)
+Theorem C18_outline_children : forall w, oi_bad (oix w) = false ->
+  exists ev c', visitc_ws w = Some (ev, c') /\ ops_cevs (oix_ops w) = ev.
+Proof. exact oix_children. Qed.
+Check C18_outline_children : forall w, oi_bad (oix w) = false ->
+  exists ev c', visitc_ws w = Some (ev, c') /\ ops_cevs (oix_ops w) = ev.
+Print Assumptions C18_outline_children.
+
+(** Non-vacuity: `class A<int x, Q y> { int f; }  class B : A { let f = ..; let g = ..; string h; }`  (Q undeclared,
+    g not a field of B): A registers x (not y) and f; B registers the override of f with f's declared type `int` and h,
+    not g. *)
+Definition ex_dv : value := Val (mkR 0 0 0) [].
+Definition ex_ws3 : workspace :=
+  mkWs [[ SClass (ex_id 6 7 "A") (Some [TArg TyInt (ex_id 12 13 "x") None; TArg (TyClass (ex_id 15 16 "Q")) (ex_id 17 18 "y") None]) []
+            [IField TyInt (ex_id 26 27 "f") None];
+          SClass (ex_id 37 38 "B") None [CRef (ex_id 41 42 "A") [] (mkR 0 41 42)]
+            [ILet (ex_id 49 50 "f") ex_dv; ILet (ex_id 60 61 "g") ex_dv; IField TyString (ex_id 78 79 "h") None] ]] [].
+Example C18_outline_children_example :
+  oi_bad (oix ex_ws3) = false /\
+  ops_cevs (oix_ops ex_ws3) =
+    [ CRec 0 RKClass (s2n "A") 6 7 true; CTArg 0 (s2n "x") (s2n "int") 12 13; CField 0 (s2n "f") (s2n "int") 26 27;
+      CRec 0 RKClass (s2n "B") 37 38 true; CField 0 (s2n "f") (s2n "int") 49 50; CField 0 (s2n "h") (s2n "string") 78 79 ] /\
+  outline_of_ws ex_ws3 0 = SOk (Some
+    [ DocSym (s2n "A") (s2n "class") 6 7 DKClass
+        [DocSym (s2n "x") (s2n "int") 12 13 DKTemplateArgument []; DocSym (s2n "f") (s2n "int") 26 27 DKField []];
+      DocSym (s2n "B") (s2n "class") 37 38 DKClass
+        [DocSym (s2n "f") (s2n "int") 49 50 DKField []; DocSym (s2n "h") (s2n "string") 78 79 DKField []] ]).
 Proof. vm_compute. repeat split; reflexivity. Qed.
